@@ -128,7 +128,7 @@ def writer_internals_missing():
         w = DiffXWriter(io.BytesIO(), encoding='utf-16')
         w.new_change()
         st, prev = w._stack, w._prev_section
-        if not (isinstance(st, list) and st and all(type(f) is dict and 'encoding' in f for f in st)
+        if not (isinstance(st, list) and st and all(isinstance(f, dict) and 'encoding' in f for f in st)
                 and isinstance(prev, str)):
             return 'DiffXWriter._stack / _prev_section do not have the shape the step constructs'
     except AttributeError as e:
